@@ -149,6 +149,33 @@ Definition nearest64_ok (neg : bool) (m e : Z) (d : dec) : bool :=
                (negb (Qle_bool 0 (x - f))) && (negb (Qle_bool gap_lo t) || (Qeq_bool t gap_lo && Z.even m)) in
   sign_ok && normal && (ok_hi || ok_lo).
 
+(** float(Decimal) as the model computes it: the binary64 nearest to the decimal, ties to even, by integer arithmetic
+    (normal range only; [None] otherwise).  That this IS the nearest double is theorem C02_float_is_nearest. *)
+Definition nearest64_try (N D e : Z) : option (Z * Z) :=
+  let '(num, den) := if (0 <=? e)%Z then (N, (D * 2 ^ e)%Z) else ((N * 2 ^ (- e))%Z, D) in
+  let q := (num / den)%Z in
+  if ((2 ^ 52 <=? q) && (q <? 2 ^ 53))%Z then
+    let m := rhe num den in
+    Some (if (m =? 2 ^ 53)%Z then ((2 ^ 52)%Z, (e + 1)%Z) else (m, e))
+  else None.
+Definition nearest64 (d : dec) : option (bool * Z * Z) :=
+  let c := coef d in
+  if (c =? 0)%Z then None
+  else
+    let a := Z.abs c in
+    let '(N, D) := if (0 <=? dexp d)%Z then ((a * 10 ^ dexp d)%Z, 1%Z) else (a, (10 ^ (- dexp d))%Z) in
+    let e0 := (Z.log2 N - Z.log2 D - 52)%Z in
+    let r := match nearest64_try N D e0 with
+             | Some r => Some r
+             | None => match nearest64_try N D (e0 - 1) with Some r => Some r | None => nearest64_try N D (e0 + 1) end
+             end in
+    match r with
+    | Some (m, e) => if ((-1074 <=? e) && (e <=? 971))%Z then Some ((c <? 0)%Z, m, e) else None
+    | None => None
+    end.
+Definition float_eqb (x : option (bool * Z * Z)) (ng : bool) (m e : Z) : bool :=
+  match x with Some (n', m', e') => Bool.eqb ng n' && (m =? m')%Z && (e =? e')%Z | None => false end.
+
 (** ** correspondence cases *)
 Inductive route := RGet | RGetTuple | RAttr | RItem.
 (* expected result from the implementation *)
@@ -165,8 +192,8 @@ Definition check_case (x : Z * route * string * expect) : bool :=
   match r, ex with
   | RGetTuple, EDatum l u cf e cm doi => outcome_eqb datum_eqb (get c s) (Ok (mkdatum l u (mkdec cf e) cm doi))
   | RItem, EDatum l u cf e cm doi => outcome_eqb datum_eqb (getitem c s) (Ok (mkdatum l u (mkdec cf e) cm doi))
-  | RGet, EFloat ng m e => match get c s with Ok d => nearest64_ok ng m e (d_data d) | Err _ => false end
-  | RAttr, EFloat ng m e => match getattr c s with Ok d => nearest64_ok ng m e d | Err _ => false end
+  | RGet, EFloat ng m e => match get c s with Ok d => float_eqb (nearest64 (d_data d)) ng m e && nearest64_ok ng m e (d_data d) | Err _ => false end
+  | RAttr, EFloat ng m e => match getattr c s with Ok d => float_eqb (nearest64 d) ng m e && nearest64_ok ng m e d | Err _ => false end
   | RGetTuple, EErr k | RGet, EErr k => match get c s with Err k' => ekind_eqb k k' | Ok _ => false end
   | RItem, EErr k => match getitem c s with Err k' => ekind_eqb k k' | Ok _ => false end
   | RAttr, EErr k => match getattr c s with Err k' => ekind_eqb k k' | Ok _ => false end
